@@ -16,10 +16,20 @@ if ! ( cd "$S/repo" && go test -vet=off -count=1 ./... >"$S/test.log" 2>&1 ); th
 echo "patched tree builds and passes the repo suite"
 cp -r /verif/framework "$S/framework"
 sed -i "s#=> /repo#=> $S/repo#" "$S/framework/go.mod"
-( cd "$S/framework" && go build -tags verif -o "$S/vcheck" "${VCHECK_PKG:-./cmd/vcheck}" ) || { echo "framework does not build against patched tree"; exit 2; }
+pkg_for() {
+  if [ -n "${VCHECK_PKG:-}" ]; then echo "$VCHECK_PKG"; return; fi
+  case "$1" in
+    C04|C07) echo ./cmd/vcheck-declp;; C06|C08|C17) echo ./cmd/vcheck-clip;; C09|C10) echo ./cmd/vcheck-diskp;;
+    C11|C13) echo ./cmd/vcheck-faultp;; C12|C14) echo ./cmd/vcheck-fsp;; C16|C18) echo ./cmd/vcheck-miscp;; *) echo ./cmd/vcheck;;
+  esac
+}
 TIER="${TIER:-quick}"
 for id in "$@"; do
-  out=$(cd /verif && VERIF_REPO="$S/repo" VERIF_FRAMEWORK="$S/framework" timeout 1800 "$S/vcheck" run "$id" "$TIER" 2>&1)
+  pkg=$(pkg_for "$id"); bin="$S/$(basename "$pkg")"
+  if [ ! -x "$bin" ]; then
+    ( cd "$S/framework" && go build -tags verif -o "$bin" "$pkg" ) || { echo "RESULT check=$id tier=$TIER exit=2 violations=0 :: framework ($pkg) does not build against patched tree"; continue; }
+  fi
+  out=$(cd /verif && VERIF_REPO="$S/repo" VERIF_FRAMEWORK="$S/framework" timeout 2400 "$bin" run "$id" "$TIER" 2>&1)
   code=$?
   nviol=$(echo "$out" | grep -c "^VIOLATION")
   echo "RESULT check=$id tier=$TIER exit=$code violations=$nviol :: $(echo "$out" | grep 'sig:' | head -3 | tr -s ' ' | tr '\n' ' ')"
